@@ -172,12 +172,24 @@ impl<'a> Session<'a> {
             }
             self.tick();
         }
-        // skip while far from the end (margin of 4*edge increments)
+        // skip while far from the end (margin of 4*edge increments); bounded, and given up as soon as
+        // the accumulator stops advancing (an envelope that makes no progress is reported by the
+        // specification from the logged ticks, the harness must not wait for it)
+        let mut rounds = 0u32;
+        let mut last_acc = u64::MAX;
         loop {
             if !self.alive || self.phase() != p {
                 return;
             }
             let acc = self.acc() as u64;
+            rounds += 1;
+            if rounds > 600 || acc == last_acc {
+                for _ in 0..3 {
+                    self.tick();
+                }
+                return;
+            }
+            last_acc = acc;
             let margin = est_inc * (4 * edge as u64 + 8);
             if acc + margin >= (1 << 24) || est_inc == 0 {
                 break;
